@@ -157,6 +157,111 @@ def has_weight(w, cname, dname, totals):
     return oka and okb
 
 
+def check_combine_two(rep, prog, m, c2, rel):
+    """combine_two_pops for every ordered pair of 2- and 3-population spectra: abstract execution (concrete pair, symbolic sizes,
+    labels and entries; one symbolic iteration of the loop over the entries).  Sizes, labels and the index of every entry must merge
+    into the lower of the two axes and drop the higher one; data are accumulated and masks united at the merged index."""
+    from sa import miniexec as mx
+    from sa import alpha as _alpha
+    known_ = _alpha.load_table().get('__params__', {}).get(m.rel)
+    known_ = set(known_) if known_ is not None else None
+    bad = {'norm': [], 'sizes': [], 'labels': [], 'index': [], 'acc': [], 'res': []}
+    n_runs = 0
+    for D in (2, 3):
+        for a1 in range(1, D + 1):
+            for b1 in range(1, D + 1):
+                if a1 == b1:
+                    continue
+                lo, hi = sorted((a1 - 1, b1 - 1))
+
+                def hook(nm, args, kwargs, D=D):
+                    if nm in ('np.ndindex', 'numpy.ndindex'):
+                        return mx.Sym('ndindex(%s)' % ', '.join(mx.show(x) for x in args), attrs={'__item_length__': D})
+                    return NotImplemented
+                it = mx.Interp(prog, m, call_hook=hook, known_functions=known_, symbolic_loops=True)
+                selfv = mx.Sym('self', truth=True, attrs={'Npop': D, 'ndim': D, 'sample_sizes': mx.Sym('self.sample_sizes', length=D), 'pop_ids': mx.Sym('self.pop_ids', length=D),
+                                                          'shape': mx.Sym('self.shape', length=D)})
+                try:
+                    paths = [p_ for p_ in it.run(c2, {'self': selfv, 'tocombine': [a1, b1]}) if p_[0][0] == 'return']
+                except mx.Undecidable as e:
+                    raise AnalysisError('combine_two_pops is not recognised: %s' % e)
+                tagc = '%d populations, combine [%d, %d]' % (D, a1, b1)
+                if not paths:
+                    bad['norm'].append('%s: raises' % tagc)
+                    continue
+                n_runs += 1
+                mask_form_unknown = []
+                for outcome, events, dec in paths:
+                    exp_sizes = ['(%s + 1)' % ('(self.sample_sizes[%d] + self.sample_sizes[%d])' % (lo, hi) if k == lo else 'self.sample_sizes[%d]' % k) for k in range(D) if k != hi]
+                    zs = [e for e in events if e[0] == 'call' and e[1].split('.')[-1] == 'zeros']
+                    shp = None
+                    if zs:
+                        shp = zs[-1][3].get('shape', zs[-1][2][0] if zs[-1][2] else None)
+                    got_sizes = [mx.show(x) for x in shp] if isinstance(shp, (list, tuple)) else None
+                    if got_sizes != exp_sizes:
+                        alt = [x.replace('(%s + 1)' % ('(self.sample_sizes[%d] + self.sample_sizes[%d])' % (lo, hi)), '((self.sample_sizes[%d] + self.sample_sizes[%d]) + 1)' % (lo, hi)) for x in exp_sizes]
+                        if got_sizes != alt:
+                            bad['sizes'].append('%s: new shape %s' % (tagc, got_sizes))
+                    ctor = [e for e in events if e[0] == 'call' and e[1] in ('Spectrum', 'dadi.Spectrum')]
+                    labs = ctor[-1][3].get('pop_ids') if ctor else None
+                    if isinstance(labs, list):
+                        texts = []
+                        for k_, x in enumerate(labs):
+                            st_ = x.struct if isinstance(x, mx.Sym) else None
+                            if st_ and st_[0] == 'call' and st_[1] == 'str.format' and st_[2][0] == '{0}+{1}':
+                                texts.append('+'.join(mx.show(y) for y in st_[2][1:]))
+                            else:
+                                texts.append(mx.show(x))
+                        want = [('self.pop_ids[%d]+self.pop_ids[%d]' % (lo, hi) if k == lo else 'self.pop_ids[%d]' % k) for k in range(D) if k != hi]
+                        if texts != want:
+                            bad['labels'].append('%s: labels %s' % (tagc, texts))
+                    elif labs is not None and not (isinstance(labs, mx.Sym) and False):
+                        bad['labels'].append('%s: labels %s' % (tagc, mx.show(labs)[:60]))
+                    incs = [e for e in events if e[0] == 'augitem' and e[3] == 'Add']
+                    want_key = ['(index[%d] + index[%d])' % (lo, hi) if k == lo else 'index[%d]' % k for k in range(D) if k != hi]
+                    if len(incs) != 1 or [mx.show(x) for x in (incs[0][2] if isinstance(incs[0][2], tuple) else (incs[0][2],))] != want_key:
+                        bad['index'].append('%s: entries added at %s' % (tagc, [mx.show(x) for x in incs[0][2]] if incs and isinstance(incs[0][2], tuple) else '?'))
+                        continue
+                    new_fs = mx.show(incs[0][1])
+                    if mx.show(incs[0][4]) != 'self[index]':
+                        bad['acc'].append('%s: adds %s' % (tagc, mx.show(incs[0][4])[:40]))
+                    ms = [e for e in events if e[0] == 'setitem' and e[1] == new_fs + '.mask']
+                    keytxt = ', '.join(want_key)
+                    okm_ = len(ms) == 1 and [mx.show(x) for x in (ms[0][2] if isinstance(ms[0][2], tuple) else (ms[0][2],))] == want_key and \
+                        sorted(mx.show(ms[0][3]).strip('()').split(' or ')) == sorted(['%s.mask[%s]' % (new_fs, keytxt), 'self.mask[index]'])
+                    masked_or = [e for e in events if e[0] == 'augitem' and e[3] == 'BitOr' and mx.show(e[1]) == new_fs + '.mask']
+                    if not okm_ and not (len(masked_or) == 1 and mx.show(masked_or[0][4]) == 'self.mask[index]'):
+                        mask_form_unknown.append(tagc)
+                    lp = [e for e in events if e[0] == 'loop']
+                    if len(lp) != 1 or 'self.shape' not in lp[0][1]:
+                        bad['acc'].append('%s: loop over %s' % (tagc, [e[1] for e in lp]))
+                    if mx.show(outcome[1]) != new_fs or {e[2]: mx.show(e[3]) for e in events if e[0] == 'setattr' and e[1] == new_fs}.get('extrap_x') != 'self.extrap_x':
+                        bad['res'].append('%s: result / extrap_x' % tagc)
+                if mask_form_unknown:
+                    # the mask update is not written as `new = new or source`: decide it by its truth table (the two mask entries concrete)
+                    for old_, src_ in ((False, False), (False, True), (True, False), (True, True)):
+                        def ih(base, key, old_=old_, src_=src_):
+                            if isinstance(base, mx.Sym) and base.text.endswith('.mask') and isinstance(key, (tuple, mx.Sym)):
+                                return src_ if base.text == 'self.mask' else old_
+                            return NotImplemented
+                        it2 = mx.Interp(prog, m, call_hook=hook, known_functions=known_, symbolic_loops=True, index_hook=ih)
+                        selfv2 = mx.Sym('self', truth=True, attrs={'Npop': D, 'ndim': D, 'sample_sizes': mx.Sym('self.sample_sizes', length=D), 'pop_ids': mx.Sym('self.pop_ids', length=D),
+                                                                   'shape': mx.Sym('self.shape', length=D)})
+                        for outcome, events, dec in [p_ for p_ in it2.run(c2, {'self': selfv2, 'tocombine': [a1, b1]}) if p_[0][0] == 'return']:
+                            sets = [e[3] for e in events if e[0] == 'setitem' and e[1].endswith('.mask') and not e[1].startswith('self')]
+                            final = sets[-1] if sets else old_
+                            if final is not (old_ or src_):
+                                bad['acc'].append('%s: mask of the merged entry is %s for (already masked=%s, source masked=%s)' % (tagc, final, old_, src_))
+    rep.ob('R-IDX', 'combine_two_pops normalisation', not bad['norm'] and not bad['index'], '; '.join((bad['norm'] + bad['index'])[:2]) or 'either order of the pair gives the same merge (%d runs executed abstractly)' % n_runs, rel, c2.lineno,
+           what='pair converted to ascending 0-based indices')
+    for k, nm in (('sizes', 'sizes'), ('labels', 'labels'), ('index', 'index')):
+        rep.ob('R-IDX', 'combine_two_pops %s' % nm, not bad[k], '; '.join(bad[k][:2]) or 'merged into the lower axis of the pair, the higher one removed', rel, c2.lineno, what='%s: add into the first of the pair, then delete the second' % nm)
+    rep.ob('R-TPL', 'combine_two_pops accumulation', not bad['acc'] and not bad['index'], '; '.join(bad['acc'][:2]) or 'every source entry is added to its merged index; masks OR-ed', rel, c2.lineno,
+           what='explicit re-indexing over all entries with += and mask union')
+    rep.ob('R-FLOW', 'combine_two_pops result', not bad['res'] and not bad['sizes'] and not bad['labels'], '; '.join(bad['res'][:2]) or 'result shape from the merged sample sizes; labels copied; extrap_x carried', rel, c2.lineno,
+           what='shape, labels and extrap_x')
+
+
 def run(rep, prog, tier):
     m = prog.mod(SM)
     rel = m.rel
@@ -184,29 +289,33 @@ def run(rep, prog, tier):
     rep.ob('R-FLOW', 'marginalize result', okc and okf, 'labels copied (not aliased), extrap_x carried, folded input handled as fold(marginalize(unfold))', rel, mg.lineno, what='labels/extrap_x/folding survive')
     fp = prog.func(SM, 'Spectrum.filter_pops')
     t = ast.unparse(fp)
-    okp = ('toremove = list(range(0, self.ndim))' in t or 'toremove = list(range(self.ndim))' in t) and 'toremove.remove(pop_ii - 1)' in t and 'return self.marginalize(toremove)' in t and 'for pop_ii in tokeep' in t
-    rep.ob('R-IDX', 'Spectrum.filter_pops', okp, 'marginalises the 0-based complement of the 1-based tokeep', rel, fp.lineno, what='filter_pops = marginalize(complement)')
-    if 'mask_corners' in positional_params(fp) and 'marginalize(toremove)' in t:
-        rep.note('filter_pops accepts mask_corners but does not forward it to marginalize (argument ignored)')
+    # for every non-empty subset (in either order) of the populations of 2- and 3-population spectra: abstract execution; the result
+    # is self.marginalize(<the 0-based complement>)
+    import itertools
+    from sa import miniexec as mx
+    mg_params = positional_params(mg)
+    badp = []
+    for D in (2, 3):
+        for r_ in range(1, D + 1):
+            for keep in itertools.permutations(range(1, D + 1), r_):
+                it = mx.Interp(prog, m)
+                try:
+                    paths = it.run(fp, {'self': mx.Sym('self', truth=True, attrs={'ndim': D, 'Npop': D}), 'tokeep': list(keep), 'mask_corners': mx.Sym('mask_corners')})
+                except mx.Undecidable as e:
+                    raise AnalysisError('filter_pops is not recognised: %s' % e)
+                for outcome, events, dec in paths:
+                    calls = [e for e in events if e[0] == 'call' and e[1] == 'self.marginalize']
+                    over = None
+                    if len(calls) == 1:
+                        over = calls[0][3].get('over', calls[0][2][0] if calls[0][2] else None)
+                    want = [k for k in range(D) if (k + 1) not in keep]
+                    if outcome[0] != 'return' or over is None or sorted(over) != want or not mx.show(outcome[1]).startswith('self.marginalize('):
+                        badp.append('%d populations, keep %s: marginalises %s' % (D, list(keep), over))
+    rep.ob('R-IDX', 'Spectrum.filter_pops', not badp, '; '.join(badp[:2]) or 'marginalises the 0-based complement of the 1-based tokeep (all subsets of 2 and 3 populations executed abstractly)', rel, fp.lineno,
+           what='filter_pops = marginalize(complement)')
     # ---- combine_two_pops ----------------------------------------------------------------------------------------------
     c2 = prog.func(SM, 'Spectrum.combine_two_pops')
-    t = ast.unparse(c2)
-    norm = single_assignments(c2)
-    first = [s for s in c2.body if isinstance(s, ast.Assign) and ast.unparse(s.targets[0]) == 'tocombine']
-    okn = bool(first) and ast.unparse(first[0].value) == 'sorted([_ - 1 for _ in tocombine])'
-    rep.ob('R-IDX', 'combine_two_pops normalisation', okn, ast.unparse(first[0]) if first else '', rel, first[0].lineno if first else c2.lineno, what='pair converted to ascending 0-based indices')
-    sites = {
-        'sizes': ('new_ns[tocombine[0]] = self.sample_sizes[tocombine[0]] + self.sample_sizes[tocombine[1]]', 'del new_ns[tocombine[1]]'),
-        'labels': ("new_pop_ids[tocombine[0]] = '{0}+{1}'.format(self.pop_ids[tocombine[0]], self.pop_ids[tocombine[1]])", 'del new_pop_ids[tocombine[1]]'),
-        'index': ('new_index[tocombine[0]] = index[tocombine[0]] + index[tocombine[1]]', 'del new_index[tocombine[1]]'),
-    }
-    for k, (a, b) in sites.items():
-        ia, ib = t.find(a), t.find(b)
-        rep.ob('R-IDX', 'combine_two_pops %s' % k, 0 <= ia < ib, '%s ; %s' % (a, b), rel, c2.lineno, what='%s: add into the first of the pair, then delete the second' % k)
-    okm = 'new_fs[new_index] += self[index]' in t and 'new_fs.mask[new_index] = new_fs.mask[new_index] or self.mask[index]' in t and 'for index in np.ndindex(self.shape)' in t
-    rep.ob('R-TPL', 'combine_two_pops accumulation', okm, 'every source entry is added to its merged index; masks OR-ed', rel, c2.lineno, what='explicit re-indexing over all entries with += and mask union')
-    oks = 'new_data = np.zeros(shape=[n + 1 for n in new_ns])' in t and 'new_ns = list(self.sample_sizes)' in t and 'new_pop_ids = list(self.pop_ids)' in t and 'new_fs.extrap_x = self.extrap_x' in t
-    rep.ob('R-FLOW', 'combine_two_pops result', oks, 'result shape from the merged sample sizes; labels copied; extrap_x carried', rel, c2.lineno, what='shape, labels and extrap_x')
+    check_combine_two(rep, prog, m, c2, rel)
     cp = prog.func(SM, 'Spectrum.combine_pops')
     t = ast.unparse(cp)
     okc = 'tocombine = sorted(tocombine)' in t and 'for right_pop in tocombine[1:][::-1]' in t and 'result = result.combine_two_pops([tocombine[0], right_pop])' in t
@@ -216,13 +325,38 @@ def run(rep, prog, tier):
     # ---- reorder_pops -------------------------------------------------------------------------------------------------------
     ro = prog.func(SM, 'Spectrum.reorder_pops')
     t = ast.unparse(ro)
-    okv = 'sorted(neworder) != [_ + 1 for _ in range(self.ndim)]' in t and any(isinstance(n, ast.Raise) for n in ast.walk(ro))
-    okd = 'newaxes = [_ - 1 for _ in neworder]' in t and 'fs = self.transpose(newaxes)' in t
+    # every permutation of 2 and 3 populations, and a few non-permutations: abstract execution
+    badv, badd = [], []
+    for D in (2, 3):
+        cases = [list(p_) for p_ in itertools.permutations(range(1, D + 1))] + [[1] * D, list(range(0, D)), list(range(1, D)), list(range(1, D + 2)), list(range(2, D + 2))]
+        for order in cases:
+            valid = sorted(order) == list(range(1, D + 1))
+            it = mx.Interp(prog, m)
+            try:
+                paths = it.run(ro, {'self': mx.Sym('self', truth=True, attrs={'ndim': D, 'Npop': D, 'pop_ids': mx.Sym('self.pop_ids', length=D)}), 'neworder': list(order)})
+            except mx.Undecidable as e:
+                raise AnalysisError('reorder_pops is not recognised: %s' % e)
+            for outcome, events, dec in paths:
+                if not valid:
+                    if outcome[0] != 'raise':
+                        badv.append('neworder=%s is accepted' % order)
+                    continue
+                if outcome[0] != 'return':
+                    badv.append('neworder=%s is refused' % order)
+                    continue
+                tr = [e for e in events if e[0] == 'call' and e[1] == 'self.transpose']
+                axes = None
+                if len(tr) == 1:
+                    a0 = tr[0][2]
+                    axes = list(a0[0]) if len(a0) == 1 and isinstance(a0[0], (list, tuple)) else list(a0)
+                if axes != [p_ - 1 for p_ in order]:
+                    badd.append('neworder=%s transposes by %s' % (order, axes))
+    okv, okd = not badv, not badd
     lab = [n for n in own_nodes(ro) if isinstance(n, ast.Assign) and ast.unparse(n.targets[0]) == 'fs.pop_ids']
     okl = len(lab) == 1 and isinstance(lab[0].value, ast.ListComp) and ast.unparse(lab[0].value.generators[0].iter) == 'newaxes' and \
         ast.unparse(lab[0].value.elt) == 'self.pop_ids[%s]' % ast.unparse(lab[0].value.generators[0].target)
-    rep.ob('R-DOM', 'reorder_pops validation', okv, 'neworder must be a permutation of 1..P', rel, ro.lineno, what='permutation validated')
-    rep.ob('R-IDX', 'reorder_pops data', okd, 'axes transposed by neworder-1', rel, ro.lineno, what='new axis k is old axis neworder[k]-1')
+    rep.ob('R-DOM', 'reorder_pops validation', okv, '; '.join(badv[:2]) or 'neworder must be a permutation of 1..P', rel, ro.lineno, what='permutation validated')
+    rep.ob('R-IDX', 'reorder_pops data', okd, '; '.join(badd[:2]) or 'axes transposed by neworder-1', rel, ro.lineno, what='new axis k is old axis neworder[k]-1')
     rep.ob('R-IDX', 'reorder_pops labels', okl, ast.unparse(lab[0]) if lab else 'labels not set', rel, lab[0].lineno if lab else ro.lineno,
            what='labels gathered with the same newaxes as the data (new label k = old label newaxes[k])')
     # ---- Misc.combine_pops -------------------------------------------------------------------------------------------------------
